@@ -72,6 +72,9 @@ func buildCase(phase string, i int) (c Case, key string, sample bool) {
 func runCase(phase string, i int) worker.Result {
 	c, key, sample := buildCase(phase, i)
 	res := execute(c)
+	if res.Inconc != "" {
+		return res // not executed: contributes nothing to coverage
+	}
 	res.Key = key
 	switch phase {
 	case "titles":
@@ -121,7 +124,18 @@ func main() {
 	r.Assume("pre-existing links in the working directory point inside it; links that already lead outside before the first push are the user's own doing and are not generated")
 	r.Assume("Linux, one file system (tmp), worker runs as root when chroot-ed; Windows path semantics not exercised")
 
-	jail, err := os.MkdirTemp("", "verif-c11-jail-")
+	// sandboxes hold ~40 small objects each and live for a few milliseconds: a
+	// memory file system is an order of magnitude faster than the disk behind /tmp
+	base := os.Getenv("VERIF_C11_TMP")
+	if base == "" {
+		if fi, err := os.Stat("/dev/shm"); err == nil && fi.IsDir() {
+			if probe, err := os.MkdirTemp("/dev/shm", "verif-c11-probe-"); err == nil {
+				os.Remove(probe)
+				base = "/dev/shm"
+			}
+		}
+	}
+	jail, err := os.MkdirTemp(base, "verif-c11-jail-")
 	if err != nil {
 		fmt.Println("BROKEN: mkdtemp:", err)
 		os.Exit(2)
@@ -163,5 +177,5 @@ func main() {
 	if done["exh"] != exhCount(exhLen) {
 		r.Inconclusive(fmt.Sprintf("exhaustive phase judged %d of %d sequences", done["exh"], exhCount(exhLen)))
 	}
-	r.Finish(r.N(3000, 60000))
+	r.Finish(r.N(6000, 150000))
 }
